@@ -272,9 +272,9 @@ func serverSide(r *mc.Run) func(x *mc.X) {
 func TestCheck(t *testing.T) {
 	mc.Main(t, "C11", func(r *mc.Run) {
 		for _, il := range []bool{false, true} {
-			r.Explore(mc.Config{Name: fmt.Sprintf("ip/interleaved=%v", il), Bound: mc.Pick(r, 2, 3)}, program(r, il, mc.Pick(r, 10, 12)))
+			r.Explore(mc.Config{Name: fmt.Sprintf("ip/interleaved=%v", il), Bound: mc.Pick(r, 3, 4)}, program(r, il, mc.Pick(r, 12, 14)))
 		}
 		r.Explore(mc.Config{Name: "server-side", Bound: -1, ShardN: 1}, serverSide(r))
-		r.Extra["rule"] = "histories of 10 (12) MeasureClockOffsetIP calls of the real NTS-enabled IPClient against the real listener and key-exchange handler; per exchange {deliver, lose request, lose response} (a run of equal losses is one deviation), between calls a time step in {1s, 23h, 25h, 49h, 73h}; all histories within 2 (3) deviations; every request and reply on the wire is decoded and judged"
+		r.Extra["rule"] = "histories of 12 (14) MeasureClockOffsetIP calls of the real NTS-enabled IPClient against the real listener and key-exchange handler; per exchange {deliver, lose request, lose response} (a run of equal losses is one deviation), between calls a time step in {1s, 23h, 25h, 49h, 73h}; all histories within 3 (4) deviations; every request and reply on the wire is decoded and judged"
 	})
 }
